@@ -101,3 +101,17 @@ impl<T> Drop for OnceLock<T> {
         }
     }
 }
+
+/// A public face of `OnceLock` for the verification harness.
+#[cfg(circ_verif)]
+pub mod verif_shim {
+    pub struct VOnceLock<T>(super::OnceLock<T>);
+    impl<T> VOnceLock<T> {
+        pub const fn new() -> Self {
+            Self(super::OnceLock::new())
+        }
+        pub fn get_or_init<F: FnOnce() -> T>(&self, f: F) -> &T {
+            self.0.get_or_init(f)
+        }
+    }
+}
